@@ -28,6 +28,27 @@ func init() {
 func (p *c09) check(rec *core.Recorder, class string, body []mt.Stmt, ctx map[string]mt.Val, goOver map[string]interface{}, nontrivial bool) {
 	set := mt.NewSet()
 	set.Add("main", body)
+	if h := core.Hash64((&mt.Printer{}).SourceSet(set)["main"], "inside-a-layout"); h%6 == 0 {
+		// one program in six is the body of a block of a template that extends a layout; the sets the program begins with
+		// stand outside the block, before or after the extends tag, where they are "rendered" before everything in the block
+		k := 0
+		for k < len(body) {
+			if _, ok := body[k].(mt.Set); !ok {
+				break
+			}
+			k++
+		}
+		before := int(h / 6 % uint64(k+1))
+		main := []mt.Stmt{mt.Set{Name: "c09pre", E: mt.S("P1")}}
+		main = append(main, body[:before]...)
+		main = append(main, mt.Extends{E: mt.S("c09lay")}, mt.Set{Name: "c09post", E: mt.Op("~", mt.V("c09pre"), mt.S("P2"))})
+		main = append(main, body[before:k]...)
+		main = append(main, mt.Block{Name: "c09body", Body: append([]mt.Stmt{mt.P(mt.V("c09post")), mt.T(":")}, body[k:]...)})
+		set = mt.NewSet()
+		set.Add("main", main)
+		set.Add("c09lay", []mt.Stmt{mt.T("L<"), mt.Block{Name: "c09body", Body: []mt.Stmt{mt.T("default")}}, mt.T(">")})
+		rec.Count("programs-inside-an-extending-template", 1)
+	}
 	in := mt.NewInterp(set)
 	want, werr := in.Render("main", ctx)
 	pr := &mt.Printer{}
